@@ -406,6 +406,17 @@ def check_redirect(rep, http):
     rep.expect('R16.d', orig and not f.in_cycle(nb), 'final-is-original',
                'next.run is outside the loop and receives the original request value',
                'next.run in Redirect::handle is inside the loop or no longer receives the original request: %s' % [repr(o) for o in final_src])
+    # what Redirect hands back on success is what the rest of the chain returned for the ORIGINAL request: the Ok payload of the return
+    # value is the awaited next.run, never a probe's response (a probe went to the shell directly, past the middleware stacked below)
+    ret_ok = origins(f, {'l': 0, 'p': ['as Ok', '.0']})
+    from_chain = bool(ret_ok) and all(o.kind == 'call' and o.bb == nb and any(s_[0] == 'await' for s_ in o.steps) for o in ret_ok)
+    whole = origins(f, {'l': 0, 'p': []})
+    direct = bool(whole) and all((o.kind == 'call' and ((o.bb == nb and any(s_[0] == 'await' for s_ in o.steps)) or
+                                                        call_matches(o.term, ['core::ops::try_trait::FromResidual::from_residual']))) or
+                                 (o.kind == 'agg' and o.stmt['rv'].get('variant') == 'Err') for o in whole)
+    rep.expect('R16.d', from_chain or direct, 'returns-the-chain-result', 'every successful return is the result of next.run on the original request',
+               'Redirect::handle can return Ok with something other than the result of next.run (e.g. the response of a probe): the middleware '
+               'stacked after Redirect is then never run for that request')
     client_src = origins(f, nt['args'][2])
     rep.expect('R16.d', f.dominates(h, nb), 'final-after-loop', 'next.run is reached only through the loop header',
                'next.run in Redirect::handle can be reached without passing the redirect loop')
